@@ -34,7 +34,7 @@ def c08_case(draw):
     xs2 = [draw(st.sampled_from([-1.0, 1.0])) * 10.0 ** draw(st.floats(-3.0, 2.0)) for _ in range(total)]
     xs2[i] = xs[i]
     method = draw(st.sampled_from(METHODS))
-    n = draw(st.integers(1, 2 if method == 'multicomplex' else 5))
+    n = draw(st.sampled_from([0, 1, 1, 1, 2, 2] if method == 'multicomplex' else [0, 1, 1, 1, 2, 2, 3, 4, 5]))
     order = draw(st.integers(1, 8))
     template = draw(st.sampled_from(['poly', 'rational', 'sqrt', 'mixed']))
     coefs = [draw(_coef()) for _ in range(4)]
